@@ -157,8 +157,10 @@ class Run(object):
             self.main.release()
 
 
-def run_once(bodies, prefix, recorded=None, timeout=30.0, bound=1 << 30):
+def run_once(bodies, prefix, recorded=None, timeout=30.0, bound=1 << 30, before=None):
     n = len(bodies)
+    if before is not None:
+        before()      # history common to all executions: runs on the calling thread, outside the scheduler
     run = Run(n, prefix, recorded, bound)
     results = [None] * n
 
@@ -189,7 +191,7 @@ def run_once(bodies, prefix, recorded=None, timeout=30.0, bound=1 << 30):
     return run, results
 
 
-def explore(bodies, bound, on_execution, max_executions=None, first_choices=None, should_stop=None):
+def explore(bodies, bound, on_execution, max_executions=None, first_choices=None, should_stop=None, before=None):
     """Enumerate all executions with <= bound preemptions (depth-first over choice prefixes).
 
     on_execution(run, results) is called for every complete execution.
@@ -203,7 +205,7 @@ def explore(bodies, bound, on_execution, max_executions=None, first_choices=None
     pmax = 0
     while stack:
         prefix, recorded, used = stack.pop()
-        run, results = run_once(bodies, prefix, recorded, bound=bound)
+        run, results = run_once(bodies, prefix, recorded, bound=bound, before=before)
         execs += 1
         pmax = max(pmax, run.npoints)
         on_execution(run, results)
